@@ -30,6 +30,14 @@ pub struct Aes128Key {
     buf: Buffer,
 }
 
+#[cfg(gufo_snmp_verif)]
+impl Aes128Key {
+    /// (next salt counter, private buffer length)
+    pub fn verif_state(&self) -> (u64, usize) {
+        (self.salt_value, self.buf.len())
+    }
+}
+
 impl SnmpPriv for Aes128Key {
     fn as_localized(&mut self, key: &[u8]) -> SnmpResult<()> {
         if key.len() < KEY_LENGTH {
